@@ -392,6 +392,10 @@ pub fn run_worker(prop: &dyn Property, a: WorkerArgs) -> i32 {
             wf.obs.panic_violation(&p, json!({"escaped_case_guard": true, "kind": kind, "index": index}));
         }
         *wf.obs.cases_run.entry(kind.to_string()).or_insert(0) += 1;
+        if wf.obs.samples.is_empty() {
+            // fallback sample: the descriptor from which this case is regenerated
+            wf.obs.samples.push(json!({"workload": kind, "case_index": index, "case_seed": seed, "note": "no richer sample recorded by this property for this case; the case is a pure function of these three values"}));
+        }
         pos += 1;
         wf.done_upto = pos;
         if crate::tables_poisoned() {
